@@ -310,6 +310,11 @@ def evaluate(chk: core.Check, cases):
 
 
 def run(chk: core.Check) -> int:
+    from tools import extract
+    ext = extract.main(['Code'])
+    chk.coverage['extract_digest'] = {k: v['digest'] for k, v in ext.items()}
+    chk.coverage['translated_functions'] = ext['Code']['data']
+    chk.trusted.append('tools/py2lean.py (Python subset -> Lean: assignments, list item assignment with Python index semantics, for-range loops, if; floats read as exact rationals)')
     clean = chk.prove(['GeoVerif.Properties.C04'])
     quick = chk.tier == 'quick'
     evaluate(chk, gen_cases(chk.rng, 400 if quick else 4000))
